@@ -179,6 +179,47 @@ func ruleC04Seq(r *Run) {
 					detail = "stored chain: " + strings.Join(shapes, " | ")
 				}
 				r.Check(rule, construct, w.InstrPos(st), ok, detail)
+				// call-site instantiation: where the stored chain ends in a parameter of f ("own ++ new middleware"),
+				// what module callers pass for that parameter must be caller-supplied middleware too — not one of the
+				// router's own lists (the group list belongs before the route's own middleware, never after it)
+				if !ok || fv != m.rtHandlers {
+					continue
+				}
+				for _, alt := range alts {
+					a := alt.Val.Atoms
+					if len(a) != 2 || !isF(a[0], m.rtHandlers) || !isP(a[1]) {
+						continue
+					}
+					prm, _ := a[1].Val.(*ssa.Parameter)
+					k := -1
+					for i, q := range f.Params {
+						if q == prm {
+							k = i
+						}
+					}
+					if k < 0 {
+						continue
+					}
+					for _, g := range w.Funcs {
+						for ci, c := range callsToFn(g, f) {
+							args := c.Common().Args
+							if k >= len(args) {
+								continue
+							}
+							cons := fmt.Sprintf("%s:call %s#%d appended middleware", FuncName(g), FuncName(f), ci+1)
+							okC, dC := true, "the appended list is caller-supplied middleware (it does not derive from the router's or a route's own lists)"
+							for _, lf := range []*types.Var{m.rGroup, m.rHandlers, m.rtHandlers} {
+								lf := lf
+								if flowsFrom(args[k], func(x ssa.Value) bool { return isLoadOfField(x, lf) }) {
+									okC = false
+									dC = "the route's list is extended with (a list derived from) " + lf.Name() + " AFTER the route's own middleware: group/global middleware would run inside the route's middleware (expected order: global, groups outer to inner, route, handler)"
+								}
+							}
+							r.Check(rule, cons, w.InstrPos(c.(ssa.Instruction)), okC, dC)
+						}
+					}
+					break
+				}
 			}
 		}
 	}
